@@ -525,7 +525,11 @@ func init() {
 	add(prod{name: "lambda-let", rep: true, block: true, app: any_, mk: func(g *Gen, t Type, env Env2, fuel, pos int) Expr {
 		f := g.split(fuel-1, 2)
 		fn := g.freshName("fn")
+		// a lambda body is not a function body: no local function lets directly in it
+		save := g.InBlock
+		g.InBlock = false
 		lam := Lambda{[]Param{{Name: "x", Type: "int"}}, g.blk("int", env.with("x", "int"), f[0])}
+		g.InBlock = save
 		body := g.blk(t, env.with(fn, "int->int"), f[1])
 		if !Uses(body, fn) {
 			g.C.Skip("unused lambda")
